@@ -15,8 +15,8 @@ From J5V.lib Require Civil Decimal.
 From J5V.proofs Require CodecDecDecimal CodecDecTimeFast.
 From Coq Require Import Permutation.
 From J5V.model Require CodecDecCommute.
-From J5V.proofs Require CodecDecMsgSorted CodecDecReorder CodecDecLenient CodecDecOneofReorder CodecDecDenote CodecDecFull CodecDecSpace CodecDecFloatProofs CodecDecLeaf.
-From J5V.model Require CodecDecFloat.
+From J5V.proofs Require CodecDecMsgSorted CodecDecReorder CodecDecLenient CodecDecOneofReorder CodecDecDenote CodecDecFull CodecDecSpace CodecDecFloatProofs CodecDecLeaf CodecDecExposedStored.
+From J5V.model Require CodecDecFloat CodecDecExposedCheck.
 Import ListNotations.
 Local Open Scope N_scope.
 
@@ -897,13 +897,33 @@ Proof.
   - vm_compute. reflexivity.
 Qed.
 
+(* ------------------------------------------------------------------ members that are exposed oneofs *)
+(* An exposed oneof has no proto path of its own: its arms are fields of the enclosing message.  For
+   environments that also pass the computable check env_exposed_ok (the arms of an exposed oneof are separate
+   from every other property of the set; evaluated on every real environment, CEnv), every non-null,
+   non-"!type" member of the body of an exposed-oneof member of an accepted document is stored in the root
+   message, at the arm's proto path, with exactly the value it denotes. *)
+Theorem C03_exposed_oneof_members_stored : forall orc e root props fuel ms m',
+  env_separate e = true -> CodecDecExposedCheck.env_exposed_ok e = true ->
+  lookup e root = Some (SObject props) -> tr_decode orc e fuel root (JObj ms) = Ok m' ->
+  forall key v p ref ps, In (key, v) ms -> v <> JNull -> find_prop props key = Some p ->
+    p_path p = [] -> p_ty p = FOneof ref -> lookup e ref = Some (SOneof ps) ->
+    exists ms', v = JObj ms' /\
+      forall k' v', In (k', v') (CodecDecOneofReorder.nontype ms') -> v' <> JNull ->
+        exists q, find_prop ps k' = Some q /\
+          (p_path q <> [] -> exists x, CodecDecDenote.denotes orc e (p_ty q) v' x /\
+                                       get_path (p_path q) m' = CodecDecDenote.stored_as q x).
+Proof. exact CodecDecExposedStored.exposed_members_of_document. Qed.
+Print Assumptions C03_exposed_oneof_members_stored.
+
 (* LIMITS of C03_full (also in pylib/propcfg/C03.py "partial"):
    - the leaf reading inside [denotes] is the conversion of the one token (scalar_from_go); every such leaf
      has the independent reading leaf_reading (C03_denoted_scalar_has_independent_reading) under the three
      oracle premises; for bytes that reading is still the model's lenient base64 decoder (canonical
      spellings: C03_base64_four_spellings); float values rest on the float oracle law;
-   - members whose property is an exposed oneof (empty proto path) are covered by clause (2) of
-     denotes_msg ("nothing else", via owns) but not by the per-member clause (1);
+   - members whose property is an exposed oneof (empty proto path) are outside the per-member clause (1) of
+     denotes_msg; they are covered by the separate theorem C03_exposed_oneof_members_stored (root level, under
+     the additional check env_exposed_ok) and by clause (2) ("nothing else", via owns);
    - the hypothesis [lex bs = (tokens_of (JObj ms) ++ rest, me)]: that every accepted text has such a
      reading is not proved (malformed texts end the token list early and the descent fails on them);
    - (2) is one direction (accepted original => accepted variant); the converse holds for member
